@@ -85,3 +85,22 @@ def goInternalEscapeBytes (l : List UInt8) (startLoc : Int) (nl strip : Bool) : 
 def goStripMarkers (l : List UInt8) : List UInt8 := stripMarkers l
 
 end Redact
+
+namespace Redact
+
+/-- Assertion that the next statement's expressions are defined (no Go panic). -/
+def goGuard (c : Bool) : Option Unit := if c then some () else none
+
+/-- `l[i]` is defined. -/
+def goInRange (l : List UInt8) (i : Int) : Bool := decide (0 ≤ i) && decide (i.toNat < l.length)
+
+/-- `l[lo:hi]` is defined (within the length). -/
+def goSliceOK (l : List UInt8) (lo hi : Int) : Bool := decide (0 ≤ lo) && decide (lo ≤ hi) && decide (hi.toNat ≤ l.length)
+
+/-- `utf8.DecodeLastRune`, modelled as far as the scanner's test `s == 1 && r == utf8.RuneError`
+needs: `(RuneError, 0)` for the empty input, `(RuneError, 1)` exactly when the transcription
+`tailBad` (Model/Utf8.lean, validated against Go on all short byte strings: stream T) says so. -/
+def goDecodeLastRune (l : List UInt8) : Int × Int :=
+  if l.isEmpty then (0xFFFD, 0) else if tailBad l then (0xFFFD, 1) else (0x61, 1)
+
+end Redact
